@@ -158,7 +158,7 @@ func (s *Server) handleAssociatePacketOverStream(ctx context.Context, _ *model.R
 		return fmt.Errorf("failed to send reply: %w", err)
 	}
 
-	return RunUDPAssociateLoop(udpConn, apicommon.NewPacketOverStreamTunnel(proxyConn), s.config.Resolver)
+	return runUDPAssociateLoop(udpConn, apicommon.NewPacketOverStreamTunnel(proxyConn), s.config.Resolver, s.udpDestinationFilter(proxyConn))
 }
 
 func (s *Server) handleAssociateDatagram(ctx context.Context, _ *model.Request, proxyConn net.Conn) error {
@@ -188,7 +188,7 @@ func (s *Server) handleAssociateDatagram(ctx context.Context, _ *model.Request, 
 		return fmt.Errorf("failed to send reply: %w", err)
 	}
 
-	return runUDPAssociateDatagramLoop(udpConn, proxyConn, s.config.Resolver)
+	return runUDPAssociateDatagramLoop(udpConn, proxyConn, s.config.Resolver, s.udpDestinationFilter(proxyConn))
 }
 
 // handleForwarding forward the request to the egress proxy.
